@@ -11,7 +11,7 @@ namespace e1 {
 
 static const char* EVN[] = {"none", "connect-ok", "write-ok", "write-on-dead-conn", "write-complete-late", "read", "read-err", "read-eof", "shutdown-ok", "release", "app", "time",
     "connect-refused", "connect-hang", "hs-rc", "hs-malformed", "hs-silent", "hs-close", "wr-fail", "wr-short", "tail-loss", "wr-deliver-only", "wr-fail-late",
-    "wr-noreply", "wr-delay", "wr-bclose-before", "wr-bclose-after", "rd-chunk", "rd-cut", "rd-loss", "shutdown-hang", "inject", "continue"};
+    "wr-noreply", "wr-delay", "wr-bclose-before", "wr-bclose-after", "rd-chunk", "rd-cut", "rd-loss", "shutdown-hang", "inject", "continue", "resolve-done", "resolve-fail"};
 std::string Event::str() const {
     std::string s = EVN[k]; if (stream >= 0) s += " s" + std::to_string(stream);
     if (k == WR_FAIL || k == WR_SHORT || k == TAIL_LOSS || k == RD_CHUNK || k == RD_CUT) s += " k=" + std::to_string(a);
@@ -21,7 +21,7 @@ std::string Event::str() const {
 static error_code err_of(int e) { return e == 0 ? error_code(asio::error::eof) : e == 1 ? error_code(asio::error::connection_reset) : error_code(asio::error::broken_pipe); }
 
 World::World(const Scenario& s) : sc(s) {
-    vclock::reset(); vclock::dns_config(s.dns_fail_mask, s.dns_two_mask);
+    vclock::reset(); vclock::dns_config(s.dns_fail_mask, s.dns_two_mask); vclock::dns_gate(s.gate_dns);
     net = std::make_unique<sim::Net>(); sim::g_net = net.get();
     ioc = std::make_unique<asio::io_context>();
     broker = std::make_unique<bkr::Broker>(*net, s.broker);
@@ -33,6 +33,7 @@ World::World(const Scenario& s) : sc(s) {
 }
 
 World::~World() {
+    vclock::dns_release_all();   // a lookup still parked in the gate must finish before the resolver thread can be joined
     if (client) { client->destroy(); client.reset(); }
     // parked handlers hold work guards and shared_ptrs into the client: drop them before the context goes away
     for (auto& st : net->streams) {
@@ -101,7 +102,8 @@ void World::drain() {
         if (first && step_no > 0) { first = false; if (!injection_point(" (before the posted completion runs)")) break; }
         size_t n = ioc->poll_one();
         if (n == 0) {
-            if (resolver_busy()) { sched_yield(); continue; }
+            if (resolver_busy()) { if (sc.gate_dns && vclock::dns_pending() > 0) break;   // quiescent with a lookup parked in the gate
+                sched_yield(); continue; }
             // the resolver thread posts its completion before it drops its work count: having seen
             // "not busy", one more poll is needed to be sure the completion is not sitting in the queue
             if (ioc->stopped()) ioc->restart();
@@ -191,6 +193,7 @@ void World::enabled(std::vector<Event>& ev) {
         }
         if (st->shutdown_parked && !st->shutdown_hung) { add(defaults, Event::SHUTDOWN_OK, s); if (fam & F_SHUT) add(variants, Event::SHUTDOWN_HANG, s); }
     }
+    if (sc.gate_dns && vclock::dns_pending() > 0) { add(defaults, Event::RESOLVE_DONE, -1); if (fam & F_CONN) add(variants, Event::RESOLVE_FAIL, -1); }
     for (auto& e : late) defaults.push_back(e);
     for (size_t i = 0; i < broker->cs.size(); ++i) if (broker->has_held(int(i)) && !net->conns[i].dead) add(defaults, Event::RELEASE, -1, int(i));
     if (app_action_enabled()) add(defaults, Event::APP, -1);
@@ -238,12 +241,14 @@ void World::apply(const Event& e) {
     case Event::APP: { for (;;) { const Action& a = sc.script[script_pos++]; do_action(a, false); if (!a.chain || script_pos >= sc.script.size()) break; } break; }
     case Event::TIME: { auto t = next_timer(); if (t && *t > now()) vclock::set_ns(*t); break; }
     case Event::INJECT: injected = true; do_action(*sc.inject, false); break;
+    case Event::RESOLVE_DONE: vclock::dns_release(false); break;
+    case Event::RESOLVE_FAIL: vclock::dns_release(true); break;
     default: break;
     }
 }
 
 static std::string action_str(const Action& a) {
-    static const char* n[] = {"RUN", "PUB", "SUB", "UNSUB", "RECV", "DISC", "CANCEL", "DESTROY", "MOVE_ASSIGN", "SIGNAL", "BARRIER", "WAIT_HS", "BPUB", "REAUTH", "MARK_STOP", "RERUN_CHECK", "KILLCONN", "BRAW", "NOP"};
+    static const char* n[] = {"RUN", "PUB", "SUB", "UNSUB", "RECV", "DISC", "CANCEL", "DESTROY", "MOVE_ASSIGN", "SIGNAL", "BARRIER", "WAIT_HS", "BPUB", "REAUTH", "MARK_STOP", "RERUN_CHECK", "KILLCONN", "BRAW", "PUBMANY", "NOP"};
     std::string s = n[a.k]; if (a.k == Action::PUB || a.k == Action::BPUB) s += " q" + std::to_string(a.qos) + " tag" + std::to_string(a.tag); if (a.k == Action::SIGNAL) s += " op" + std::to_string(a.target_op) + " type" + std::to_string(a.sig_type);
     return s;
 }
@@ -305,6 +310,7 @@ void World::do_action(const Action& a, bool from_handler) {
     case Action::BPUB: broker->push(a.tag, uint8_t(a.qos), a.topic, a.payload, a.props); break;
     case Action::REAUTH: client->re_authenticate(); break;
     case Action::MARK_STOP: net->stop_marker = true; break;
+    case Action::PUBMANY: { for (int i = 0; i < a.n; ++i) { Action p; p.k = Action::PUB; p.qos = a.qos; p.tag = a.tag + i; p.topic = "m"; p.payload = "many-" + std::to_string(a.tag + i); initiate(p); } break; }
     case Action::BRAW: { int c = broker->live_conn(); if (c >= 0) broker->emit_raw(c, a.payload, true); break; }
     case Action::KILLCONN: { int c = broker->live_conn(); if (c >= 0) broker->close_conn(c); break; }
     default: break;
@@ -366,6 +372,8 @@ uint64_t World::out_volume() const {
     uint64_t v = 0; for (auto& c : net->conns) v += c.bytes_c2b; for (auto& st : net->streams) if (st->write_parked && !st->write_delivered) v += st->write_data.size(); return v;
 }
 void World::take_stop_snapshot(const std::string& what) {
+    // a lookup parked in the DNS gate is work asio cannot cancel (getaddrinfo runs to its end): let it finish first
+    for (int guard = 0; sc.gate_dns && vclock::dns_pending() > 0 && guard < 16; ++guard) { tr("(releasing a parked DNS lookup before judging the drain)"); vclock::dns_release(false); drain(); }
     stop_snap.done = true; stop_snap.parked = net->parked_count(); stop_snap.timers = pending_timers(); stop_snap.ioc_stopped = ioc->stopped(); stop_snap.t = now(); stop_snap.what = what;
     stop_snap.incomplete = 0; newer_pending_at_snap = 0; for (auto& o : ops) if (o.completions == 0) { if (o.epoch == 0) stop_snap.incomplete++; else newer_pending_at_snap++; }
 }
@@ -375,6 +383,7 @@ void World::epilogue() {
     if (!sc.epilogue_cancel || !client || !client->alive()) { drain_checked = false; }
     else { tr("epilogue: cancel()"); client->cancel(); epoch++; net->stop_marker = true; }
     drain();
+    for (int guard = 0; sc.gate_dns && vclock::dns_pending() > 0 && guard < 16; ++guard) { vclock::dns_release(false); drain(); }
     // without advancing the clock the context must have run out of work (C05)
     drain_result.done = true; drain_result.parked = net->parked_count(); drain_result.timers = pending_timers(); drain_result.ioc_stopped = ioc->stopped();
     for (auto& o : ops) if (o.completions == 0) drain_result.incomplete++;
